@@ -118,7 +118,9 @@ def run(case, ctx):
                 nontrivial = True
             b1 = Bar(s, case["num"], case["den"])
             b2 = Bar(gen.build_seq(case["seq2"]), case["num"], case["den"])
-            joined = Bar.to_sequence([b1, b2.copy(), b1.copy()])
+            b3 = b2.copy()
+            b3.transpose([3, 50, -48, 12][case["num"] % 4])
+            joined = Bar.to_sequence([b1, b2.copy(), b1.copy(), b3])
             hold += [b1, b2, joined]
             joined.abs
             tok = _tok(1, case["flags"], 1)
@@ -176,7 +178,8 @@ def run(case, ctx):
                 elif n == "concatenate":
                     s.concatenate([o.copy()])
                 elif n == "transpose":
-                    s.transpose(op["k"] * 13 - 20)
+                    # small shifts and shifts that force octave wrapping (which re-normalises and re-quantises lengths)
+                    s.transpose([op["k"] * 13 - 20, 50, -45, 60, -60][op["a"] % 5])
                 elif n == "cutoff":
                     s.cutoff(op["a"], max(1, op["a"] // 2))
                 elif n == "scale":
